@@ -198,6 +198,8 @@ class TunnelCommunity(Community):
         self.request_cache = RequestCache()
         self.decode_map_private: dict[int, Callable[[TunnelCommunity, Address, bytes, int | None], None]
                                            | Callable[[Address, bytes, int | None], None]] = {}
+        # The subset of tunneled messages that the outside world may send to us in a data message through an exit.
+        self.data_message_ids: set[int] = set()
 
         # Messages that can arrive from the socket
         self.add_message_handler(CellPayload.msg_id, self.on_cell)
@@ -281,11 +283,17 @@ class TunnelCommunity(Community):
 
     def add_cell_handler(self, payload_cls: type[VariablePayloadWID],
                          handler: Callable[[TunnelCommunity, Address, bytes, int | None], None] | \
-                                  Callable[[Address, bytes, int | None], None]) -> None:
+                                  Callable[[Address, bytes, int | None], None],
+                         from_data: bool = False) -> None:
         """
         Handler for messages that are exclusively tunneled (i.e., never handled plaintext).
+
+        Only handlers registered with ``from_data`` also accept the message when it comes out of a data message,
+        i.e., when it was sent by a party outside of the circuit instead of by a hop that holds the session keys.
         """
         self.decode_map_private[payload_cls.msg_id] = handler
+        if from_data:
+            self.data_message_ids.add(payload_cls.msg_id)
 
     def _generate_circuit_id(self) -> int:
         circuit_id = random.getrandbits(32)
@@ -1006,8 +1014,11 @@ class TunnelCommunity(Community):
             e2e_data = circuit.ctype in [CIRCUIT_TYPE_RP_DOWNLOADER, CIRCUIT_TYPE_RP_SEEDER]
             if DataChecker.could_be_ipv8(data) and not e2e_data:
                 if self._prefix == data[:22]:
-                    self.logger.debug("Incoming packet meant for us")
-                    self.on_packet_from_circuit(origin, data, circuit_id)
+                    if data[22] in self.data_message_ids:
+                        self.logger.debug("Incoming packet meant for us")
+                        self.on_packet_from_circuit(origin, data, circuit_id)
+                    else:
+                        self.logger.warning("Dropping circuit message %d that came out of a data message", data[22])
                     return
 
                 if isinstance(self.endpoint, TunnelEndpoint):
